@@ -85,6 +85,7 @@ GEN_EXTRACTORS = {
     "Schemas": ("schemas", [_G + "Schemas.lean", "go/internal/msgs/msgs_gen.go"]),
     "SizeFns": ("sizefns", [_G + "SizeFns.lean"]),
     "WriterConsts": ("writer", [_G + "WriterConsts.lean"]),
+    "XerialFacts": ("xerialfacts", [_G + "XerialFacts.lean"]),
     "XerialReset": ("resetfields", [_G + "XerialReset.lean"]),
 }
 
